@@ -35,6 +35,8 @@ def cases(tier, seed):
                  names=NAMES, payload="affine", base_blocks=(1, 3) if bf == 4 else (2, 4))
         if i % 4 == 3:
             g["full_refine"] = True
+        if i % 3 == 1:      # far from the origin: coordinate / cell size of 1e5 .. 1e7
+            g["origin"] = [rng.choice([1.0e5, -3.0e5, 2.5e6]) for _ in range(3)]
         cs.append({"kind": "geom", "gen": g, "sel_seed": seed * 53 + i, "npos": 8 if tier == "quick" else 12, "fmt": dict(ref_ratio_extra=rng.choice([0, 0, 1, 3]), trailing_blank=rng.random() < 0.7, close_blank=rng.random() < 0.3, floatfmt=rng.choice(["repr", "17g"]))})
     nsplit = 1 if tier == "quick" else 4
     for i in range(nsplit):
@@ -126,7 +128,7 @@ def judge(out, m, vol, n, pos, L, fl):
                 a = arr[..., ci]
                 e = val[sl][..., names.index(nm)]
                 scale = slicemodel.scale_of(e[dec])
-                bad = dec & slicemodel.differs(a, e, 1e-9 * scale)
+                bad = dec & slicemodel.differs(a, e, slicemodel.value_tol(m, L, n) * scale)
                 if bad.any():
                     i, j = np.argwhere(bad)[0]
                     probs.append(f"level {lv} box {lo}..{hi} field {nm}: {int(bad.sum())} pixels are not the level's own "
@@ -134,7 +136,7 @@ def judge(out, m, vol, n, pos, L, fl):
                 if nm == "a" + "xyz"[n] and inside0:
                     aa, cc = m.coef[n]
                     expv = aa + cc * pos
-                    badp = ~(np.abs(a - expv) <= 1e-9 * max(1.0, abs(expv)))
+                    badp = ~(np.abs(a - expv) <= slicemodel.value_tol(m, L, n) * max(1.0, abs(expv)))
                     if badp.any():
                         probs.append(f"level {lv} box {lo}..{hi} field {nm} (affine along the normal): "
                                      f"{int(badp.sum())} pixels are not {expv!r} (e.g. {a[tuple(np.argwhere(badp)[0])]!r})")
